@@ -1,4 +1,5 @@
 """C09 -- action expansion obeys set laws over the catalogue, the same in every API."""
+import copy
 import json
 
 import core
@@ -111,6 +112,13 @@ def gen_statement(rng, cat, allow_notaction=True):
     elif r < 0.97:
         st["action"] = gen_element(rng, cat)
         st["notaction"] = gen_element(rng, cat)
+    if rng.random() < 0.3:
+        # a conditional statement, other principals / resources: expansion looks at Action / NotAction (and, for the allowed
+        # actions, at the Effect) only (audit experiment 1: "skip Allow statements that carry a Condition" went unnoticed)
+        st["more"] = rng.choice([{"Condition": {"StringEquals": {"aws:PrincipalOrgID": "o-1"}}},
+                                 {"Condition": {"IpAddress": {"aws:SourceIp": "192.0.2.0/24"}}, "Principal": "*"},
+                                 {"Principal": {"AWS": ["arn:aws:iam::123456789012:root"]}, "Sid": "x"},
+                                 {"NotPrincipal": {"Service": "ec2.amazonaws.com"}, "Condition": {"Bool": {"aws:SecureTransport": "false"}}}])
     return st
 
 
@@ -174,6 +182,7 @@ def stmt_kwargs(st):
         kw["Action"] = st["action"]
     if st.get("notaction") is not None:
         kw["NotAction"] = st["notaction"]
+    kw.update(copy.deepcopy(st.get("more") or {}))
     return kw
 
 
